@@ -164,9 +164,18 @@ def parse_xsd(text, elem_names):
         types.add((en, proj, tuple(kids), attrs))
     if len(names) != len(set(names)):
         types.add(("?duplicate complexType name", None, (), ()))
+    # closure: every type= / base= / itemType= in the document resolves to an xs: built-in or a declared type
+    declared = set(simple) | set(names) | {"include"}
+    dangling = []
+    for el in root.iter():
+        for key in ("type", "base", "itemType"):
+            v = el.get(key)
+            if v is not None and not v.startswith("xs:") and v not in declared:
+                dangling.append("%s=%s" % (key, v))
     unused = sorted(n for n in simple if not n.startswith("kw") and n not in used_named)
     top = [(e.get("name"), e.get("type")) for e in root.findall(XS + "element")]
-    return {"kw": tuple(kw), "types": frozenset(types), "unused_vector_types": unused, "top": top}
+    return {"kw": tuple(kw), "types": frozenset(types), "unused_vector_types": unused, "top": top,
+            "dangling": sorted(set(dangling))}
 
 
 def parse_table(text):
@@ -226,6 +235,38 @@ def parse_dm(text):
                 tuple(node(k) for k in (kids if kids is not None else ())))
 
     return node(root)
+
+
+def dm_dangling(text):
+    """closure of the dm_control output: every reference_namespace (other than attrib:*) is the namespace of an emitted
+    identified element (its namespace= attribute, or its tag)"""
+    root = ET.fromstring(text.encode())
+    have, refs = set(), set()
+    for e in root.iter("element"):
+        attrs = e.find("attributes")
+        if attrs is not None and any(a.get("type") == "identifier" for a in attrs):
+            have.add(e.get("namespace") or e.get("name"))
+        for a in (attrs if attrs is not None else ()):
+            ns = a.get("reference_namespace")
+            if a.get("type") == "reference" and ns and not ns.startswith("attrib:"):
+                refs.add(ns)
+    return sorted(refs - have)
+
+
+def flags_only_via_group(sch):
+    """vacuity guard: some element receives a flags<E> attribute through `use` while no element declares flags<E> directly"""
+    groups = {d["name"]: d for d in sch if d["k"] == "group"}
+
+    def via(members, depth=0):
+        out = set()
+        for m in members:
+            if m["m"] == "use" and m["name"] in groups and depth < 20:
+                g = groups[m["name"]]
+                out |= {a["target"] for a in g["mem"] if a["m"] == "attr" and a["type"] == "flags"} | via(g["mem"], depth + 1)
+        return out
+
+    direct = {a["target"] for d in sch if d["k"] == "element" for a in d["mem"] if a["m"] == "attr" and a["type"] == "flags"}
+    return any(via(d["mem"]) - direct for d in sch if d["k"] == "element")
 
 
 # ----------------------------------------------------------------------------------------------
@@ -342,6 +383,8 @@ class Runner:
             x = parse_xsd(outs["generate_xsd"], elem_names)
         except Exception as e:              # noqa: BLE001
             return ("xsd:unparsable", "generated XSD cannot be read back: %s %s" % (type(e).__name__, e))
+        if x["dangling"]:
+            return ("xsd:undeclared-type", "the XSD refers to types it does not declare: %r" % x["dangling"][:6])
         if x["kw"] != exp["xsd_kw"]:
             return ("xsd:keyword-types", "keyword simpleTypes: expected %r, got %r" % (exp["xsd_kw"], x["kw"]))
         d = diff_types(exp["xsd_types"], x["types"])
@@ -355,6 +398,14 @@ class Runner:
             t = parse_table(outs["generate_mjcf_table"])
         except Exception as e:              # noqa: BLE001
             return ("table:unparsable", "%s %s" % (type(e).__name__, e))
+        for e in t:
+            if e[0].startswith("?"):
+                return ("table:dangling-constraint", "MJCF_constraints refers to a non-row entry: %s" % e[0])
+            if e[0] == "row":
+                for (_k, bundles) in e[4]:
+                    miss = {n for b in bundles for n in b} - set(e[3])
+                    if miss:
+                        return ("table:dangling-constraint", "constraint of row %s names attributes %s the row does not have" % (e[1], sorted(miss)))
         d = diff_table(exp["table"], t)
         if d:
             return ("table:%s" % d[0], "MJCF[] table differs in %s: expected %r, got %r" % d)
@@ -365,6 +416,9 @@ class Runner:
             dm = parse_dm(outs["generate_dmcontrol"])
         except Exception as e:              # noqa: BLE001
             return ("dm:unparsable", "%s %s" % (type(e).__name__, e))
+        dang = dm_dangling(outs["generate_dmcontrol"])
+        if dang:
+            return ("dm:dangling-reference", "dm_control schema refers to namespaces no emitted element populates: %r" % dang[:6])
         d = diff_dm(exp["dm"], dm)
         if d:
             return ("dm:%s" % d[0], "dm_control schema differs in %s: expected %r, got %r" % d)
@@ -483,7 +537,7 @@ def run(ctx):
                    "the unedited file")
         import concurrent.futures as cf
         cfg2 = "SchemaGen_Sim.cfg"
-        nproc, nsim = (2, 10) if ctx.quick else (6, 150)
+        nproc, nsim = (2, 5) if ctx.quick else (6, 150)
         jenv = {"JAVA_TOOL_OPTIONS": "-XX:ParallelGCThreads=2"}
         with cf.ThreadPoolExecutor(10) as ex:
             mcfg = "SchemaGen_Q.cfg" if ctx.quick else "SchemaGen_MC.cfg"
@@ -497,6 +551,8 @@ def run(ctx):
             ctx.tlc_ok(res, mcfg[:-4])
             if len(states) < 100:
                 raise Machinery("only %d states" % len(states))
+            if not any(flags_only_via_group(s["sch"]) for s in states):
+                raise Machinery("vacuity: no schema with a flags attribute reached only through a group")
             controls(ctx, rn, states)
             outs = run_states(ctx, rn, states, "MC")
             n = len(states)
